@@ -205,6 +205,17 @@ func (c c02) Execute(p *core.Plan) *core.Result {
 	if !w.Net.Run() {
 		res.Infra = "step budget exhausted"
 	}
+	// tokens the clients still hold at the end of the run must still be valid and their own
+	for _, id := range w.Order {
+		s := w.Sessions[id]
+		for i, t := range s.Tokens {
+			if msg := CheckTokenBinding(s, i, t, hostKeyID(w, s)); msg != "" {
+				res.Violate(fmt.Sprintf("C02/type%d/held-token-changed", s.Type), fmt.Sprintf("session %d token %d, re-checked at the end of the run: %s", s.ID, i, msg), -1)
+			} else if _, err := w.VerifyTokenBytes(s.Type, s.Iss, t.Marshal()); err != nil {
+				res.Violate(fmt.Sprintf("C02/type%d/held-token-changed", s.Type), fmt.Sprintf("session %d token %d no longer verifies at the end of the run: %v", s.ID, i, err), -1)
+			}
+		}
+	}
 	res.Sample = map[string]any{"type": p.C("type", 0), "faults": faultSteps(p), "finalize_calls": res.Evals}
 	finish(w, res)
 	return res
